@@ -54,18 +54,20 @@ def consistent_frames(exons, sn, start):
 
 
 def _cds_case(repo, it, S, spec):
-    exons, sn, start, cs, ce = spec
+    exons, sn, start, cs, ce = spec[:5]
+    cstrand = spec[5] if len(spec) > 5 else "PLUS"
     out = []
     n = 0
     CDS = "gene.cds:CDSInterval"
     frames = consistent_frames(exons, sn, start)
-    desc = f"CDS exons={list(exons)} {sn} frames={frames} chunk=[{cs},{ce})"
+    desc = f"CDS exons={list(exons)} {sn} frames={frames} chunk=[{cs},{ce})" + ("" if cstrand == "PLUS" else " (minus-strand chunk)")
+    to_chrom = (lambda p: p + cs) if cstrand == "PLUS" else (lambda p: ce - 1 - p)
     cat = (f"[{'single' if len(exons) == 1 else 'multi'}-exon, start frame {'0' if start == 0 else 'nonzero'}, "
            f"5' end {'cut' if ((cs > exons[0][0]) if sn == 'PLUS' else (ce < exons[-1][1])) else 'kept'}]")
     if not any(cs <= p < ce for s, e in exons for p in range(s, e)):
         cat = "[no CDS base in the chunk]"
     pc = chrom_parent(it, GENOME, alphabet="NT_EXTENDED")
-    pk = chunk_parent(it, GENOME, cs, ce, alphabet="NT_EXTENDED")
+    pk = chunk_parent(it, GENOME, cs, ce, alphabet="NT_EXTENDED", strand=cstrand)
     q = lambda m: repo.fn(f"{CDS}.{m}")  # noqa: E731
     try:
         whole = mk_cds(it, exons, S[sn], frames, pc)
@@ -111,7 +113,7 @@ def _cds_case(repo, it, S, spec):
         if want or v in ("AttributeError", "IndexError", "KeyError", "TypeError", "RecursionError"):
             out.append(("chunk codons " + cat + " raises", f"{desc}: chunk_relative_codon_locations raises {v}; codons fully inside the chunk: {want}", q("chunk_relative_codon_locations").qual))
     else:
-        got = [[p + cs for p in loc_positions(c)] for c in v]
+        got = [[to_chrom(p) for p in loc_positions(c)] for c in v]
         if got != want:
             out.append(("chunk codons " + cat, f"{desc}: chunk-relative codons (in chromosome coordinates) = {got}; whole-chromosome codons fully inside the chunk: {want}", q("chunk_relative_codon_locations").qual))
     n += 1
@@ -124,6 +126,31 @@ def _cds_case(repo, it, S, spec):
             out.append(("chunk coding sequence " + cat, f"{desc}: extract_sequence on the chunk = {sv!r}; codons inside the chunk spell {wseq!r}", q("extract_sequence").qual))
     elif wseq or v in ("AttributeError", "IndexError", "KeyError", "TypeError"):
         out.append(("chunk coding sequence " + cat + " raises", f"{desc}: extract_sequence on the chunk raises {v}; expected {wseq!r}", q("extract_sequence").qual))
+    # chunk-relative frames: every chunk-relative block is annotated with the frame the uninterrupted reading frame has at
+    # its 5' end (5' by the direction of the CDS)
+    if inside_any:
+        n += 1
+        k, v = run(it, q("chunk_relative_frames"), [], {}, part)
+        k2, cb = run(it, it.method(part, "chunk_relative_blocks"), [], {}, part)
+        order = list(range(len(exons)))
+        if sn == "MINUS":
+            order.reverse()
+        coding = [p for i in order for p in enum_positions([exons[i]], sn)]  # chromosome positions, 5'->3'
+        if k != "ok" or k2 != "ok":
+            out.append(("chunk frames raises", f"{desc}: chunk_relative_frames / chunk_relative_blocks raise {v if k != 'ok' else cb}", q("chunk_relative_frames").qual))
+        else:
+            # the library's convention (see construct_frames_from_location, C05.RF): the 5'-most block carries the number of
+            # bases to skip, every later block the codon position of its first base
+            fives = []
+            for b in cb:
+                (bs, be), = blocks_of(b)
+                chrom = sorted(to_chrom(x) for x in (bs, be - 1))
+                fives.append(coding.index(chrom[0] if sn == "PLUS" else chrom[1]))
+            wantf = [(start - i) % 3 if i == min(fives) else (i - start) % 3 for i in fives]
+            gotf = [x.value for x in v]
+            if gotf != wantf:
+                out.append(("chunk frames " + cat, f"{desc}: chunk_relative_frames = {gotf} for chunk-relative blocks {[blocks_of(b)[0] for b in cb]}; "
+                            f"the reading frame at the 5' end of each block is {wantf}", q("chunk_relative_frames").qual))
     return n, out
 
 
@@ -204,12 +231,15 @@ def rk_cds(ctx):
     for lay in lays:
         for sn in ("PLUS", "MINUS"):
             for start in (0, 1, 2):
-                for cs, ce in _windows(lay, ctx.thorough):
+                for j, (cs, ce) in enumerate(_windows(lay, ctx.thorough)):
                     specs.append((lay, sn, start, cs, ce))
+                    # the same twin on a chunk that is the reverse strand of the chromosome stretch
+                    if ctx.thorough or (j + start) % 3 == 0:
+                        specs.append((lay, sn, start, cs, ce, "MINUS"))
     ctx.r.floor("C07.RK", "CDS twin cases", len(specs), 300)
     results = pmap(_runner(ctx.repo, _cds_case), specs)
     _report(ctx, "C07.RK", results, [(f"gene.cds:CDSInterval.{m}", "chunk twin = chromosome twin restricted to the chunk") for m in (
-        "to_dict", "chromosome_codon_locations", "num_codons", "chunk_relative_codon_locations", "extract_sequence")])
+        "to_dict", "chromosome_codon_locations", "num_codons", "chunk_relative_codon_locations", "extract_sequence", "chunk_relative_frames")])
 
 
 def rk_intervals(ctx):
